@@ -364,6 +364,7 @@ impl World for C19 {
             "stopped_before.write_batch",
             "stopped_before.delete_cf",
             "sweep.with_reset",
+            "sweep.bulk_commit_256_plus",
             "sweep.pruning_on",
             "sweep.pruning_off",
             "stop_position_beyond_last_write",
@@ -407,7 +408,14 @@ impl World for C19 {
                 if n >= total {
                     return None;
                 }
-                let c = cfg.universe.gen_commit(rng, &nodes, &model, false);
+                let mut c = cfg.universe.gen_commit(rng, &nodes, &model, false);
+                // commit size is a knob correctness must not depend on: sometimes a bulk commit
+                if rng.chance(1, 6) {
+                    let size = *rng.pick(&[64usize, 255, 256, 257, 300, 600, 1100]);
+                    if let Some(b) = cfg.universe.gen_bulk_commit(rng, &nodes, &model, size) {
+                        c = b;
+                    }
+                }
                 Some(if n < cfg.prefix_commits { Step::Commit(c) } else { Step::SweepCommit(c) })
             });
             n += 1;
@@ -442,7 +450,24 @@ impl World for C19 {
                     if commit.nodes.iter().any(|n| n.parts.iter().any(|p| p.reset)) {
                         stats.bump("sweep.with_reset");
                     }
-                    (1..=seen.len() as u32 + 1).collect()
+                    if commit.n_changes() >= 256 {
+                        stats.bump("sweep.bulk_commit_256_plus");
+                    }
+                    let w = seen.len() as u32;
+                    let cap: u32 = if steps.tier() == Tier::Thorough { 192 } else { 48 };
+                    if w + 1 <= cap {
+                        stats.bump("sweeps.every_position");
+                        (1..=w + 1).collect()
+                    } else {
+                        // very many writes (bulk commit with pruning): head, tail and an even stride
+                        stats.bump("sweeps.sampled_positions");
+                        let third = cap / 3;
+                        let mut v: std::collections::BTreeSet<u32> = (1..=third).collect();
+                        v.extend((w + 1 - third)..=(w + 1));
+                        let stride = (w / third).max(1);
+                        v.extend((1..=w).step_by(stride as usize));
+                        v.into_iter().collect()
+                    }
                 } else {
                     ks
                 };
